@@ -5,7 +5,7 @@ Confirmation = patch applies; module builds; the 39-test suite passes with the
 patch; the demonstration fails with the patch and passes without it."""
 import os,re,json,glob,subprocess,shutil,sys
 ENV=dict(os.environ,GOFLAGS='-mod=mod',GOPROXY='off',GOSUMDB='off',GOTOOLCHAIN='local')
-STAGE='/root/scratch/mutants'; WT='/tmp/wt-confirm'; OUT='/verif/seeded'
+STAGE=os.environ.get('MUT_STAGE','/root/scratch/mutants'); WT='/root/scratch/wt-confirm'; OUT='/verif/seeded'
 def sh(cmd,cwd=WT,timeout=900):
     p=subprocess.run(cmd,shell=True,cwd=cwd,env=ENV,stdout=subprocess.PIPE,stderr=subprocess.STDOUT,text=True,timeout=timeout)
     return p.returncode,p.stdout
